@@ -142,7 +142,12 @@ class InterpCore(object):
             _, m, st = r
             # module level constant: evaluate its value in that module's env
             menv = Env(module=m, label=m.name)
+            menv.at_line = getattr(st, "lineno", None)
             self.stack.append(menv)
+            saved_conds, self.path_conds = self.path_conds, []
+            saved_loops = getattr(self, "loop_stack", None)
+            if saved_loops is not None:
+                self.loop_stack = []
             try:
                 if isinstance(st, ast.Assign):
                     val = self.eval(st.value, menv)
@@ -153,6 +158,9 @@ class InterpCore(object):
                     self.assign(st.target, val, menv)
             finally:
                 self.stack.pop()
+                self.path_conds = saved_conds
+                if saved_loops is not None:
+                    self.loop_stack = saved_loops
             return menv.vars.get(name)
         return None
 
@@ -169,6 +177,13 @@ class InterpCore(object):
             return v
         m = env.find_module()
         if m is not None:
+            at = getattr(env, "at_line", None)
+            b = m.bindings.get(name)
+            if at is not None and b is not None and name in self._BUILTINS:
+                bl = getattr(getattr(b.node, "node", b.node), "lineno", None)
+                if bl is not None and bl > at:
+                    # module-level statement executed before the later redefinition of a builtin's name
+                    return ExtV("builtins." + name)
             v = self.module_global(m, name, node)
             if v is not None:
                 return v
